@@ -2,6 +2,7 @@
 package c02
 
 import (
+	"context"
 	"encoding/json"
 	"fmt"
 	"net/url"
@@ -112,7 +113,7 @@ func collect(doc *openapi3.T, lay *fsgen.Layout) []site {
 					return
 				}
 				seen[val.Pointer()] = true
-				walk(val, ctxFile, pos, depth+1)
+				walk(val.Elem(), ctxFile, pos, depth+1)
 				return
 			}
 			if seen[v.Pointer()] {
@@ -220,6 +221,11 @@ func check(c Case) (o h.Outcome) {
 			panic(fmt.Sprintf("harness: generated reference %q in %s does not resolve on the raw files: %v", s.ref, s.ctxFile, rerr))
 		}
 		if s.value.IsNil() {
+			if tgt.Hops >= 2 {
+				// the target is itself a reference (a chain): one root cause, whatever the position
+				o.Fail("unresolved:target-is-a-reference", "after a successful load the reference %q at %s (written in %s), whose target is itself a reference, has no value\nroot=%s entry=%s\nfiles=%v", s.ref, s.position, s.ctxFile, lay.Root, c.Entry, lay.Files)
+				return
+			}
 			o.Fail("unresolved:"+s.position, "after a successful load the reference %q at %s (written in %s) has no value", s.ref, s.position, s.ctxFile)
 			return
 		}
@@ -241,6 +247,15 @@ func check(c Case) (o h.Outcome) {
 		}
 	}
 	h.Extra("reference_sites_checked", int64(len(sites)))
+	// second witness of the same clause: document validation walks the loaded structure on its own
+	// and names any reference the loader left without a value
+	var verr error
+	if !o.Guarded("Validate", func() { verr = doc.Validate(context.Background()) }) {
+		return
+	}
+	if verr != nil && strings.Contains(verr.Error(), "found unresolved ref") {
+		o.Fail("unresolved-per-validate", "the load succeeded but document validation finds a reference without a value: %v\nroot=%s\nfiles=%v", verr, lay.Root, lay.Files)
+	}
 	return
 }
 
@@ -355,19 +370,26 @@ func reachableRefs(lay *fsgen.Layout) []fsgen.RefSite {
 			if !reach[s.File] {
 				continue
 			}
-			if t, err := fsgen.Resolve(lay.Files, s.File, s.Ref); err == nil {
-				for _, f := range t.Files {
-					// a pointer into a single-element file reads the file but resolves only what the
-					// pointer designates (a leaf here): references elsewhere in that file are not demanded
-					if i := strings.Index(s.Ref, "#"); i > 0 && !strings.Contains(lay.Files[f], `"openapi"`) {
-						continue
-					}
-					if !reach[f] {
-						reach[f] = true
-						changed = true
-					}
-				}
+			// one hop: the file this reference names. A document is resolved as a whole whichever
+			// fragment named it; a single-element file is resolved as a whole only when it is named
+			// without a fragment (a pointer into it resolves just what the pointer designates).
+			filePart, frag := s.Ref, ""
+			if i := strings.Index(s.Ref, "#"); i >= 0 {
+				filePart, frag = s.Ref[:i], s.Ref[i+1:]
 			}
+			if filePart == "" {
+				continue
+			}
+			f := fsgen.ResolvePath(s.File, filePart)
+			content, ok := lay.Files[f]
+			if !ok || reach[f] {
+				continue
+			}
+			if frag != "" && !strings.Contains(content, `"openapi"`) {
+				continue
+			}
+			reach[f] = true
+			changed = true
 		}
 	}
 	var out []fsgen.RefSite
